@@ -281,7 +281,7 @@ def handle (req : Json) : Except String Json := do
     | .ok rwj =>
       let rws ← (← arr rwj).mapM parseVal
       let hist := calls.zip rws
-      let batchable := sp.layout != .single
+      let batchable := match req.getObjVal? "learn_batch" with | .ok (Json.bool b) => b | _ => sp.layout != .single
       let learnJson (c : LearnCall) : Json := obj [("ctx", valToJson c.ctx), ("action", valToJson c.action), ("reward", valToJson c.reward),
         ("prob", valToJson c.prob), ("kw", valToJson (.dict .tmp c.kwKeys c.kwVals))]
       let hres : Json := match runHistory fx L batchable st hist with
@@ -299,7 +299,8 @@ def handle (req : Json) : Except String Json := do
         else match rows with
           | [(c, as, x)] => pure (SArg.single c as x)
           | _ => throw "an unbatched score call has one row")
-      let S := scriptedScore pol (sp.layout != .single) (← bool (← field req "score_tup"))
+      let sbatch := match req.getObjVal? "score_batch" with | .ok (Json.bool b) => b | _ => sp.layout != .single
+      let S := scriptedScore pol sbatch (← bool (← field req "score_tup"))
       let rec go (m : Option Nat) : List SArg → List Json
         | [] => []
         | a :: as =>
